@@ -117,7 +117,7 @@ def _relayout(draw, line):
 @st.composite
 def _unit(draw):
     g = _G(draw)
-    pick = draw(st.integers(0, 69))
+    pick = draw(st.integers(0, 71))
     sup = True
     pre = ""
     label = ""
@@ -492,6 +492,21 @@ def _unit(draw):
             lit = draw(st.sampled_from([str(m), "True", f"{m}.5", "'s'"])) if o != "Where" else "True"
             body = f"def f1({a}): return {lit}\nq = ds.{o}(f1)"
             label = "one-line-def-returning-a-literal"
+    elif pick in (70, 71):
+        # callables whose source is not what they do: a decorated function (the wrapper changes the result) and a bound method,
+        # passed by name - refusing is fine, recording the underlying function's text is not
+        o = g.op()
+        a = draw(st.sampled_from(ARGS))
+        g.n += 1
+        m = 1000 + g.n * 17
+        c = " > 0" if o == "Where" else ""
+        if pick == 70:
+            body = (f"import functools\ndef deco(fn):\n    @functools.wraps(fn)\n    def w(*a, **k):\n        return fn(*a, **k) - 2000\n    return w\n"
+                    f"@deco\ndef f1({a}): return {a} * 3 + {m}{c}\nq = ds.{o}(f1)")
+        else:
+            body = f"class K:\n    k_ = 2000\n    def m(self, {a}): return {a} * 3 + {m} - self.k_{c}\nq = ds.{o}(K().m)"
+        sup = False
+        label = "decorated-function-or-bound-method-passed-by-name"
     elif pick >= 42 and pick <= 58:
         # free-form layout: a chain of 2-3 calls, then line breaks (and comments) at random places where python allows them
         ncalls = draw(st.integers(2, 3))
